@@ -30,7 +30,12 @@
 using namespace enki;
 
 
+#if defined(RKCOMMON_VERIF) && defined(RKCOMMON_VERIF_PIPESIZE_LOG2)
+// verification hook: a small per-thread pipe makes the pipe-full fallback paths reachable with few threads
+static const uint32_t PIPESIZE_LOG2              = RKCOMMON_VERIF_PIPESIZE_LOG2;
+#else
 static const uint32_t PIPESIZE_LOG2              = 8;
+#endif
 static const uint32_t SPIN_COUNT                 = 100;
 static const uint32_t SPIN_BACKOFF_MULTIPLIER    = 10;
 static const uint32_t MAX_NUM_INITIAL_PARTITIONS = 8;
